@@ -72,7 +72,7 @@ static void trunc_run(Ctx& c) {
         c.cmp("susceptibility-tau-bound", "C19:susceptibility-tau-bound:" + ek, y, x, bound(eps * dim, x), [&] { return "chi(tau) beta=" + fmt(beta) + " eps=" + fmt(eps); });
     }
     // (4) two-particle Green's function (small models only)
-    if (N <= 3 || (c.thorough() && N <= 4 && r.coin(0.3))) {
+    if (N <= 3 || (N <= 4 && r.coin(c.thorough() ? 0.6 : 0.5))) {
         for (int t = 0; t < 3; ++t) {
             int q[4] = {(int)r.range(0, N - 1), (int)r.range(0, N - 1), 0, 0}; if (t == 0) { q[2] = q[1]; q[3] = q[0]; } else { q[2] = (int)r.range(0, N - 1); q[3] = (int)r.range(0, N - 1); }
             auto mk = [&](Pomerol::DensityMatrix& D) { return new Pomerol::TwoParticleGF(*p.S, *p.H, p.Ops->getAnnihilationOperator((Pomerol::ParticleIndex)q[0]), p.Ops->getAnnihilationOperator((Pomerol::ParticleIndex)q[1]), p.Ops->getCreationOperator((Pomerol::ParticleIndex)q[2]), p.Ops->getCreationOperator((Pomerol::ParticleIndex)q[3]), D); };
